@@ -246,8 +246,10 @@ def match_finding(v: dict, findings: list):
         m = f.get("match", {})
         if "monitor" in m and m["monitor"] != v["monitor"]:
             continue
-        if "clause" in m and m["clause"] != v["clause"]:
-            continue
+        if "clause" in m:
+            cl = m["clause"]
+            if (v["clause"] not in cl) if isinstance(cl, list) else (cl != v["clause"]):
+                continue
         feat = v.get("feature") or {}
         ok = True
         for k, want in m.get("feature", {}).items():
